@@ -264,6 +264,26 @@ func init() {
 				cw.add("skip", "skip", "N jsonout random-float-bits", prop)
 			}
 		}
+		for _, str := range []string{"K\xfcche", "bell\a", "del\x7f", "nul\x00byte", "\xff\xfe", "tab\tnew\nline", "quote\"back\\slash", "<html>&", "\U0001F600", "\U000E0001", "\u2028\u2029", "é€"} {
+			ms := []rscp.Message{{Tag: rscp.INFO_SERIAL_NUMBER, DataType: rscp.CString, Value: str},
+				{Tag: rscp.BAT_DATA, DataType: rscp.Container, Value: []rscp.Message{{Tag: rscp.BAT_DEVICE_NAME, DataType: rscp.CString, Value: str}}}}
+			plain := plainFrame(ms, false, time.Unix(1, 0).UTC())
+			for _, format := range []string{"json", "jsonsimple", "jsonmerged"} {
+				got := loop.ask("out " + format + " " + hexOf(plain))
+				prop := "pass"
+				if strings.HasPrefix(got, "ok ") {
+					txt, _ := unhex(got[3:])
+					if _, ok := joTokens(txt); !ok {
+						prop = "FAIL C13 the output is not one valid JSON document for a string value " + fmt.Sprintf("%q", str)
+					} else if why := structureOK(ms, format, txt); why != "" {
+						prop = "FAIL C13 " + why
+					}
+				} else {
+					prop = "FAIL C13 the tool cannot print a response with the string value " + fmt.Sprintf("%q", str) + " in format " + format
+				}
+				cw.add("skip", "skip", "N jsonout unusual-string", prop)
+			}
+		}
 		for _, sec := range secEdges {
 			run([]rscp.Message{{Tag: rscp.INFO_UTC_TIME, DataType: rscp.Timestamp, Value: time.Unix(sec, 5).UTC()}}, fmt.Sprintf("time-edge sec=%d", sec), true)
 		}
